@@ -99,7 +99,7 @@ Section Spec.
         forallb (fun j => match start_of j, done_of j with Some _, Some _ => is_out j Fail | _, _ => false end)
                 (seq 0 (length atts))
         && match dones with (j, _) :: _ => Nat.eqb i j | [] => false end
-        && match tdone, rev dones with Some td, (_, tl) :: _ => N.eqb td tl | _, _ => false end
+        && match tdone with Some td => forallb (fun d => N.leb (snd d) td) dones | None => false end
     | RNoProgress => Nat.eqb (length atts) 0 && opt_N_eqb tdone (Some 0%N)
     | _ => true
     end.
@@ -119,16 +119,14 @@ Section Spec.
     | [] => true
     | (i, _) :: r => Nat.eqb i k && consecutive_from (S k) r
     end.
-  Fixpoint nondecreasing (last : N) (l : list (nat * N)) : bool :=
-    match l with
-    | [] => true
-    | (_, t) :: r => N.leb last t && nondecreasing t r
-    end.
+  (* a later candidate never starts before an earlier one *)
+  Definition mono_times (l : list (nat * N)) : bool :=
+    forallb (fun p => forallb (fun q => negb (Nat.leb (fst p) (fst q)) || N.leb (snd p) (snd q)) l) l.
 
   (* started in the given order, each candidate at most once, at non-decreasing times;
      every completion belongs to a started attempt and happens exactly lat after its start *)
   Definition s_order : bool :=
-    consecutive_from 0 starts && nondecreasing 0 starts
+    consecutive_from 0 starts && mono_times starts
     && forallb (fun d => match start_of (fst d) with
                          | Some ts => opt_N_eqb (fin (fst d) ts) (Some (snd d))
                          | None => false end) dones
